@@ -327,3 +327,14 @@ func RunReplay(harnesses map[string]func()) {
 	}()
 	f()
 }
+
+// Thorough reports whether the thorough tier is running (larger bounds). primitive.
+func Thorough() bool { return os.Getenv("VERIF_TIER") == "thorough" }
+
+// MapOrderFuncs makes range-over-map explore all orders inside the functions whose
+// full name contains one of the comma-separated substrings (insertion order elsewhere). primitive.
+func MapOrderFuncs(list string) {}
+
+// Summarize replaces the named group of pure functions by their specification
+// (only groups whose specification another check establishes on the real code). primitive.
+func Summarize(group string) {}
